@@ -1,9 +1,235 @@
-(* C12/Proofs.v *)
+(* C12/Proofs.v -- generic lemmas about block-structured lists, and the structure of each loop of
+   the model. *)
 From Coq Require Import ZArith List Bool Arith Lia.
 From PV Require Import Base.NpSearch C12.Model C12.Spec.
 Import ListNotations.
 Open Scope Z_scope.
 
+(* ---------------------------------------------------------------------------------------------- *)
+(* offsets *)
+Lemma offs_0 l : offs l 0 = 0%nat.
+Proof. reflexivity. Qed.
+Lemma offs_S x l k : offs (x :: l) (S k) = (x + offs l k)%nat.
+Proof. reflexivity. Qed.
+Lemma offs_nil k : offs [] k = 0%nat.
+Proof. unfold offs. now rewrite firstn_nil. Qed.
+
+Lemma offs_le l k w : nth_error l k = Some w -> (offs l k + w <= nsum l)%nat.
+Proof.
+  revert k; induction l as [|x l IH]; intros [|k] H; cbn [nth_error] in H; try discriminate.
+  - injection H as ->. rewrite offs_0. cbn [nsum fold_right]. lia.
+  - rewrite offs_S. cbn [nsum fold_right]. specialize (IH k H). unfold nsum in IH. lia.
+Qed.
+
+Lemma offs_all l k : (length l <= k)%nat -> offs l k = nsum l.
+Proof. intros H. unfold offs. now rewrite firstn_all2. Qed.
+
+(* ---------------------------------------------------------------------------------------------- *)
+(* Blocks *)
+Lemma Blocks_nil {B C} (P : nat -> B -> C -> Prop) : Blocks P [] [].
+Proof. split; [reflexivity|]. intros [|k] L i b H; discriminate. Qed.
+
+Lemma Blocks_cons {B C} (P : nat -> B -> C -> Prop) L src outL out :
+  length outL = length L ->
+  (forall i b, nth_error L i = Some b -> exists c, nth_error outL i = Some c /\ P 0%nat b c) ->
+  Blocks (fun k => P (S k)) src out -> Blocks P (L :: src) (outL ++ out).
+Proof.
+  intros Hlen H0 [Hl Hs]. split.
+  - rewrite app_length, Hl, Hlen. reflexivity.
+  - intros [|k] L' i b HL Hb; cbn [nth_error] in HL.
+    + injection HL as <-. destruct (H0 i b Hb) as (c & Hc & Pc). exists c. split; [|exact Pc].
+      cbn [map]. rewrite offs_0. cbn [Nat.add]. rewrite nth_error_app1; [exact Hc|].
+      apply nth_error_Some. congruence.
+    + destruct (Hs k L' i b HL Hb) as (c & Hc & Pc). exists c. split; [|exact Pc].
+      cbn [map]. rewrite offs_S. rewrite nth_error_app2 by lia.
+      replace (length L + offs (map (@length B) src) k + i - length outL)%nat
+        with (offs (map (@length B) src) k + i)%nat by lia. exact Hc.
+Qed.
+
+Lemma Blocks_impl {B C} (P Q : nat -> B -> C -> Prop) src out :
+  (forall k L i b c, nth_error src k = Some L -> nth_error L i = Some b -> P k b c -> Q k b c) ->
+  Blocks P src out -> Blocks Q src out.
+Proof.
+  intros H [Hl Hs]. split; [exact Hl|]. intros k L i b HL Hb.
+  destruct (Hs k L i b HL Hb) as (c & Hc & Pc). exists c. split; [exact Hc|]. eapply H; eassumption.
+Qed.
+
+Lemma Blocks_map_out {B C D} (P : nat -> B -> C -> Prop) (g : C -> D) src out :
+  Blocks P src out -> Blocks (fun k b d => exists c, P k b c /\ d = g c) src (map g out).
+Proof.
+  intros [Hl Hs]. split; [now rewrite map_length|]. intros k L i b HL Hb.
+  destruct (Hs k L i b HL Hb) as (c & Hc & Pc). exists (g c). split; [now apply map_nth_error|].
+  exists c. now split.
+Qed.
+
+Lemma map_block {B C} (f : B -> C) (L : list B) i b :
+  nth_error L i = Some b -> exists c, nth_error (map f L) i = Some c /\ c = f b.
+Proof. intros H. exists (f b). split; [now apply map_nth_error|reflexivity]. Qed.
+
+(* blocks built by mapping a k-indexed function over the k-th source block *)
+Lemma Blocks_concat_seq_gen {B C} (f : nat -> B -> C) (src : list (list B)) k0 :
+  Blocks (fun k b c => c = f (k0 + k)%nat b) src
+         (concat (map (fun i => map (f (k0 + i)%nat) (nth i src [])) (seq 0 (length src)))).
+Proof.
+  revert k0; induction src as [|L src IH]; intros k0; [apply Blocks_nil|].
+  cbn [length seq map concat]. rewrite <- seq_shift, map_map. apply Blocks_cons.
+  - cbn [nth]. now rewrite map_length.
+  - intros i b Hb. cbn [nth]. apply map_block; exact Hb.
+  - specialize (IH (S k0)). eapply Blocks_impl; [|].
+    2:{ erewrite map_ext; [exact IH|]. intros i. cbn [nth]. now rewrite Nat.add_succ_r. }
+    intros k L' i b c _ _ ->. cbn beta. now rewrite Nat.add_succ_r.
+Qed.
+
+Lemma Blocks_concat_seq {B C} (f : nat -> B -> C) (src : list (list B)) :
+  Blocks (fun k b c => c = f k b) src
+         (concat (map (fun i => map (f i) (nth i src [])) (seq 0 (length src)))).
+Proof. exact (Blocks_concat_seq_gen f src 0). Qed.
+
+(* index form of concat *)
+Lemma nth_error_concat {B} (ls : list (list B)) k a :
+  (a < length (nth k ls []))%nat ->
+  nth_error (concat ls) (offs (map (@length B) ls) k + a) = nth_error (nth k ls []) a.
+Proof.
+  revert k; induction ls as [|L ls IH]; intros k H.
+  - destruct k; cbn in H; lia.
+  - destruct k as [|k]; cbn [nth] in *; cbn [map concat].
+    + rewrite offs_0. cbn [Nat.add]. now rewrite nth_error_app1.
+    + rewrite offs_S. rewrite nth_error_app2 by lia.
+      replace (length L + offs (map (@length B) ls) k + a - length L)%nat
+        with (offs (map (@length B) ls) k + a)%nat by lia. now apply IH.
+Qed.
+
+(* ---------------------------------------------------------------------------------------------- *)
+(* place / BlockRow *)
+Section Poly.
+Context {A : Type} (zero : A).
+
+Lemma firstn_repeat_le (x : A) n j : (j <= n)%nat -> firstn j (repeat x n) = repeat x j.
+Proof.
+  revert j; induction n as [|n IH]; intros [|j] H; cbn [repeat firstn]; try reflexivity; try lia.
+  f_equal. apply IH. lia.
+Qed.
+Lemma skipn_repeat_le (x : A) n j : skipn j (repeat x n) = repeat x (n - j).
+Proof.
+  revert j; induction n as [|n IH]; intros [|j]; cbn [repeat skipn Nat.sub]; try reflexivity.
+  apply IH.
+Qed.
+Lemma nth_error_repeat_lt (x : A) n c : (c < n)%nat -> nth_error (repeat x n) c = Some x.
+Proof.
+  revert c; induction n as [|n IH]; intros [|c] H; cbn [repeat nth_error]; try reflexivity; try lia.
+  apply IH. lia.
+Qed.
+
+Lemma place_eq n j0 src : (j0 + length src <= n)%nat ->
+  place zero n j0 src = repeat zero j0 ++ src ++ repeat zero (n - (j0 + length src)).
+Proof.
+  intros H. unfold place, set_slice. rewrite firstn_repeat_le by lia. now rewrite skipn_repeat_le.
+Qed.
+
+Lemma place_blockrow n j0 src : (j0 + length src <= n)%nat -> BlockRow zero n j0 src (place zero n j0 src).
+Proof.
+  intros H. rewrite place_eq by exact H. unfold BlockRow. split; [|split; [exact H|split]].
+  - rewrite !app_length, !repeat_length. lia.
+  - intros c x Hc. rewrite nth_error_app2 by (rewrite repeat_length; lia). rewrite repeat_length.
+    replace (j0 + c - j0)%nat with c by lia. rewrite nth_error_app1; [exact Hc|].
+    apply nth_error_Some. congruence.
+  - intros c Hc [Hlt|Hge].
+    + rewrite nth_error_app1 by (rewrite repeat_length; lia). now apply nth_error_repeat_lt.
+    + rewrite nth_error_app2 by (rewrite repeat_length; lia). rewrite repeat_length.
+      rewrite nth_error_app2 by lia. apply nth_error_repeat_lt. lia.
+Qed.
+
+Lemma Forall2_place n j0 (tm : list (list A)) :
+  (forall r, In r tm -> (j0 + length r <= n)%nat) ->
+  Forall2 (BlockRow zero n j0) tm (map (place zero n j0) tm).
+Proof.
+  induction tm as [|r tm IH]; intros H; cbn [map]; constructor.
+  - apply place_blockrow. apply H. now left.
+  - apply IH. intros r' Hr'. apply H. now right.
+Qed.
+
+(* ---- write_templates ---- *)
+Lemma nth_widths (Ts : list (list (list (list A)))) k T :
+  nth_error Ts k = Some T -> nth_error (widths Ts) k = Some (tshape2 T).
+Proof. intros H. unfold widths. now apply map_nth_error. Qed.
+
+Lemma write_templates_blocks (Ts : list (list (list (list A)))) out :
+  write_templates zero Ts = Some out -> (forall T, In T Ts -> RectT T) -> TemplateBlocks zero Ts out.
+Proof.
+  unfold write_templates. destruct Ts as [|T0 Ts']; [discriminate|].
+  remember (T0 :: Ts') as Ts eqn:ETs. match goal with |- context [forallb ?f ?l] => destruct (forallb f l) end; [|discriminate].
+  intros H Hrect. injection H as <-. unfold TemplateBlocks.
+  eapply Blocks_impl; [|apply (Blocks_concat_seq (fun i => map (place zero (nsum (map (@tshape2 A) Ts))
+                                   (nsum (firstn i (map (@tshape2 A) Ts))))))].
+  intros k T i tm c HT Htm ->. cbn beta. apply Forall2_place.
+  intros r Hr. pose proof (nth_widths Ts k T HT) as Hw. apply offs_le in Hw.
+  rewrite (Hrect T (nth_error_In _ _ HT) tm r (nth_error_In _ _ Htm) Hr). exact Hw.
+Qed.
+
+Lemma write_templates_some (Ts : list (list (list (list A)))) :
+  Ts <> [] -> (forall T, In T Ts -> tshape1 T = tshape1 (hd [] Ts)) -> exists out, write_templates zero Ts = Some out.
+Proof.
+  destruct Ts as [|T0 Ts']; [congruence|]. intros _ H. unfold write_templates.
+  set (Ts := T0 :: Ts') in *. cbn [hd] in H.
+  assert (forallb (fun T => Nat.eqb (tshape1 T) (tshape1 T0)) Ts = true) as ->.
+  { apply forallb_forall. intros T HT. apply Nat.eqb_eq. unfold Ts in H. now apply H. }
+  eexists; reflexivity.
+Qed.
+
+(* ---- block_diag ---- *)
+Lemma bd_loop_blocks n (Ms : list (list (list A))) c0 :
+  (forall M, In M Ms -> RectM M) -> (c0 + nsum (map (@mcols A) Ms) <= n)%nat ->
+  Blocks (fun k r o => BlockRow zero n (c0 + offs (map (@mcols A) Ms) k) r o) Ms (bd_loop zero n c0 Ms).
+Proof.
+  revert c0; induction Ms as [|M Ms IH]; intros c0 Hrect Hn; cbn [bd_loop]; [apply Blocks_nil|].
+  cbn [map nsum fold_right] in Hn. fold (nsum (map (@mcols A) Ms)) in Hn. apply Blocks_cons.
+  - now rewrite map_length.
+  - intros i r Hr. exists (place zero n c0 r). split; [now apply map_nth_error|].
+    cbn [map]. rewrite offs_0, Nat.add_0_r. apply place_blockrow.
+    rewrite (Hrect M (or_introl eq_refl) r (nth_error_In _ _ Hr)). lia.
+  - eapply Blocks_impl; [|apply (IH (c0 + mcols M)%nat)].
+    + intros k L i b c _ _ H. cbn [map]. rewrite offs_S.
+      replace (c0 + (mcols M + offs (map (@mcols A) Ms) k))%nat with (c0 + mcols M + offs (map (@mcols A) Ms) k)%nat by lia.
+      exact H.
+    + intros M' HM'. apply Hrect. now right.
+    + lia.
+Qed.
+
+Lemma block_diag_spec (Ms : list (list (list A))) :
+  (forall M, In M Ms -> RectM M) -> BlockDiag zero Ms (block_diag zero Ms).
+Proof.
+  intros H. unfold BlockDiag, block_diag. eapply Blocks_impl; [|apply (bd_loop_blocks _ Ms 0%nat H); lia].
+  intros k L i b c _ _ Hc. exact Hc.
+Qed.
+
+Lemma all_some_spec {B} (l : list (option B)) :
+  match all_some l with
+  | Some xs => l = map Some xs
+  | None => In None l
+  end.
+Proof.
+  induction l as [|[x|] l IH]; cbn [all_some]; [reflexivity| |now left].
+  destruct (all_some l) as [xs|]; [cbn [map]; now f_equal|now right].
+Qed.
+
+Lemma write_misc_present (Ms : list (list (list A))) :
+  (forall M, In M Ms -> RectM M) ->
+  exists out, write_misc zero (map Some Ms) = Some out /\ BlockDiag zero Ms out.
+Proof.
+  intros H. unfold write_misc.
+  assert (all_some (map Some Ms) = Some Ms) as ->.
+  { clear H. induction Ms as [|M Ms IH]; [reflexivity|]. cbn [map all_some]. now rewrite IH. }
+  eexists; split; [reflexivity|]. now apply block_diag_spec.
+Qed.
+
+Lemma write_misc_absent (Ms : list (option (list (list A)))) : In None Ms -> write_misc zero Ms = None.
+Proof.
+  intros H. unfold write_misc. pose proof (all_some_spec Ms) as S. destruct (all_some Ms) as [xs|]; [|reflexivity].
+  subst Ms. apply in_map_iff in H as (x & Hx & _). discriminate.
+Qed.
+End Poly.
+
+(* ---------------------------------------------------------------------------------------------- *)
 Lemma write_params_spec {R} (ps : list (params R)) (r : R) :
   ps <> [] -> (forall p, In p ps -> pr_rate p = r) ->
   exists m, write_params ps = Some m /\ pr_rate m = r /\ pr_ncd m = zsum (map pr_ncd ps).
